@@ -247,6 +247,61 @@ func (x *Exec) frontBuiltin(env *SpecEnv, st *State, name string, args []TV) (TV
 			return TV{VScalar{IntLit(int64(len(calls(n))))}, intT}, true
 		}
 		return TV{}, false
+	case "sameslice":
+		// sameslice(a, b): the two slice values denote the same elements (same backing array, offset, length)
+		if len(args) == 2 {
+			a, ok1 := x.force(st, args[0].V).(VSlice)
+			b, ok2 := x.force(st, args[1].V).(VSlice)
+			if ok1 && ok2 {
+				if a.Arr == b.Arr && a.Lo == b.Lo {
+					return TV{VScalar{And(Eq(a.Len, b.Len), Eq(a.Nil, b.Nil))}, boolT}, true
+				}
+				return TV{VScalar{And(a.Nil, b.Nil)}, boolT}, true
+			}
+		}
+		return TV{}, false
+	case "itercalls":
+		// itercalls("name"): recorded calls since the current loop iteration began (site ... backedge)
+		if n, ok := litArg(0); ok {
+			cnt := 0
+			for i, r := range st.rec {
+				if i >= x.iterBase && r.Name == n {
+					cnt++
+				}
+			}
+			return TV{VScalar{IntLit(int64(cnt))}, intT}, true
+		}
+		return TV{}, false
+	case "iterres":
+		// iterres("name", i): result i of the last call recorded in the current loop iteration
+		n, ok1 := litArg(0)
+		i, ok2 := intArg(1)
+		if ok1 && ok2 {
+			for k := len(st.rec) - 1; k >= x.iterBase && k >= 0; k-- {
+				r := st.rec[k]
+				if r.Name == n && i >= 0 && i < len(r.Results) {
+					nargs := len(r.Args) - len(r.Results)
+					return TV{r.Results[i], r.Args[nargs+i].T}, true
+				}
+			}
+		}
+		return TV{}, false
+	case "chancap":
+		if len(args) == 1 {
+			if ch, ok := x.force(st, args[0].V).(VChan); ok && ch.Obj >= 0 {
+				if co, ok := st.heap[ch.Obj].(*ChanObj); ok && co.Cap.S != "" {
+					return TV{VScalar{co.Cap}, intT}, true
+				}
+			}
+		}
+		return TV{}, false
+	case "chanlen":
+		if len(args) == 1 {
+			if ch, ok := x.force(st, args[0].V).(VChan); ok {
+				return TV{VScalar{x.chanLen(st, ch)}, intT}, true
+			}
+		}
+		return TV{}, false
 	case "callarg", "callres":
 		// callarg("name", k, i): argument i (receiver first) of the k-th recorded call; callres: result i
 		n, ok1 := litArg(0)
@@ -360,6 +415,11 @@ func (x *Exec) frontBuiltin(env *SpecEnv, st *State, name string, args []TV) (TV
 	case "errcode":
 		// code of a *t_api.Error held in an error interface
 		iv, ok := x.force(st, args[0].V).(VIface)
+		if ok && iv.Dyn == nil && iv.Id.S != "" {
+			// an error of unknown dynamic type: its code is a function of its identity (the same symbol
+			// errors.As yields under an assume-error-type directive)
+			return TV{VScalar{x.sym.Named("errdyn."+iv.Id.S+".code", SInt)}, intT}, true
+		}
 		if !ok || iv.Dyn == nil {
 			return TV{VScalar{x.sym.Fresh("errcode.unknown", SInt)}, intT}, true
 		}
@@ -386,6 +446,16 @@ func (x *Exec) frontBuiltin(env *SpecEnv, st *State, name string, args []TV) (TV
 				if e.Key.S == k.S {
 					return TV{VScalar{e.Present}, boolT}, true
 				}
+			}
+			if mg.Sym {
+				// an input map: presence of this key is unknown; remember the entry so that a later
+				// lookup of the same key sees the same answer
+				elem := m.Typ.Underlying().(*types.Map).Elem()
+				ent := MapEntry{Key: k, Present: x.sym.Fresh(mg.Name+".has", SBool), Val: VLazy{Typ: elem, Name: fmt.Sprintf("%s[%s]", mg.Name, k.S)}}
+				cp := *mg
+				cp.Entries = append(append([]MapEntry(nil), mg.Entries...), ent)
+				st.heap[m.Obj] = &cp
+				return TV{VScalar{ent.Present}, boolT}, true
 			}
 			return TV{VScalar{TFalse}, boolT}, true
 		}
